@@ -199,6 +199,16 @@ def batch_labels(ctx, rows, r, d, g, case, prefix=""):
     return feats
 
 
+def index_error_unit(case):
+    """float32 index arithmetic: b = (t_z - v_min) / delta_z is computed from float32 values of magnitude up to max(|v_min|,|v_max|),
+    so it carries an absolute error of about eps32 * (N-1) * max(1, scale / (v_max - v_min)) (cancellation when the support is narrow
+    and far from zero).  The two weights of an atom still add up to exactly one, but each is off by that much, and an atom clipped
+    to v_max may spill that much past the last atom.  Tolerances are 'stated tolerance + a few of these units'."""
+    n, vmin, vmax = case["atoms"], case["vmin"], case["vmax"]
+    scale = max(1.0, abs(vmin), abs(vmax))
+    return EPS32 * (n - 1) * max(1.0, scale / (vmax - vmin))
+
+
 def _bucket(err):
     """error magnitude class for the label histogram (how far the observed errors stay below the tolerance)"""
     if not err > 0:
@@ -279,10 +289,7 @@ def check_projection(ctx, agent, batch, rows, g, case, kind):
     mass = proj.sum(1)
     mean = (proj * z[None, :]).sum(1)
     scale = max(1.0, abs(vmin), abs(vmax))
-    # float32 index arithmetic: b = (t_z - v_min) / delta_z carries an absolute error of a few eps32 * (N-1); the two weights of
-    # an atom still add up to exactly one, but a target atom clipped to v_max may spill that much past the last atom
-    tol_mass = 1e-5 + 4 * EPS32 * (n - 1)
-    tol_mean = 1e-5
+    tol_mass = tol_mean = 1e-5 + 4 * index_error_unit(case)
     best = None
     for name, na, src in cands:  # first candidate that satisfies both laws; report against the online-greedy one otherwise
         smass = src.sum(1)
@@ -397,8 +404,10 @@ def reference_ce(agent, batch, g, case):
     out = []
     for name, na, src in source_candidates(agent, batch):
         m = reference_projection(src, r, d, g, vmin, vmax, n)
-        out.append((f"greedy={name},log_softmax", -(m * logq).sum(1)))
-        out.append((f"greedy={name},log_of_clamped", -(m * logq_cl).sum(1)))
+        # slack: moving a weight error of one index_error_unit between neighbouring atoms changes the row's cross-entropy by at most
+        # unit * mass * 2 max|log q|
+        out.append((f"greedy={name},log_softmax", -(m * logq).sum(1), 2 * np.abs(logq).max(1) * src.sum(1)))
+        out.append((f"greedy={name},log_of_clamped", -(m * logq_cl).sum(1), 2 * np.abs(logq_cl).max(1) * src.sum(1)))
     return out
 
 
@@ -435,7 +444,8 @@ def run_priorities(case, ctx):
         cands = None
         for b, g in parts:
             cs = reference_ce(agent, b, g, case)
-            cands = cs if cands is None else [(f"{l1}+{l2}", v1 + v2) for l1, v1 in cands for l2, v2 in cs]
+            cands = cs if cands is None else [(f"{l1}+{l2}", v1 + v2, s1 + s2) for l1, v1, s1 in cands for l2, v2, s2 in cs]
+        unit = 8 * index_error_unit(case)
         exp = one.clone()
         if per:
             w = np.random.default_rng(bd["bseed"]).uniform(0.1, 1.0, size=(B, 1)).astype(np.float32)
@@ -454,34 +464,37 @@ def run_priorities(case, ctx):
         if not ok:
             continue
         loss, _, prios = out
+        steps = "one_step" if mode == "1step" else "multi_step"  # signature class; the exact mode is in the details
         det = dict(mode=mode, per=per, gamma=case["gamma"], n_step=case["n_step"], prior_eps=eps,
                    rewards=[b["reward"].reshape(-1).tolist() for b, _ in parts],
                    dones=[b["done"].reshape(-1).tolist() for b, _ in parts], atoms=case["atoms"], v_min=case["vmin"], v_max=case["vmax"])
         if per:
             got = np.asarray(prios, dtype=np.float64)
             if got.shape != (B,):
-                ctx.fail(f"C18/priorities/{mode}/not_one_priority_per_sample", f"new priorities have shape {got.shape}, batch has {B} rows", **det)
+                ctx.fail(f"C18/priorities/{steps}/not_one_priority_per_sample", f"new priorities have shape {got.shape}, batch has {B} rows", **det)
                 continue
-            errs = [(float((np.abs(got - eps - want) / np.maximum(1.0, np.abs(want))).max()), lab, want) for lab, want in cands]
+            errs = [(float(((np.abs(got - eps - want) - unit * slack).clip(0) / np.maximum(1.0, np.abs(want))).max()), lab, want)
+                    for lab, want, slack in cands]
             err, lab, want = next((e for e in errs if e[0] <= 1e-4), errs[0])
-            ctx.label("cross_entropy_err" + _bucket(err))
+            ctx.label("cross_entropy_err" + _bucket(float((np.abs(got - eps - want) / np.maximum(1.0, np.abs(want))).max())))
             if err > 1e-4:
-                if np.abs(got - want).max() <= 1e-4 * max(1.0, np.abs(want).max()) and eps > 1e-3:
+                if np.abs(got - want).max() <= 1e-4 * max(1.0, np.abs(want).max()) and eps >= 1e-3:
                     cls = "prior_eps_not_added"
                 elif np.abs(got - eps - want.mean()).max() <= 1e-4 * max(1.0, abs(want.mean())) and B > 1:
                     cls = "mean_loss_instead_of_per_sample"
                 else:
                     cls = "not_the_cross_entropy_of_the_projection"
-                ctx.fail(f"C18/priorities/{mode}/{cls}", "priorities - prior_eps differ from the cross-entropy between the canonical "
+                ctx.fail(f"C18/priorities/{steps}/{cls}", "priorities - prior_eps differ from the cross-entropy between the canonical "
                          "projection of the target distribution and the online log-distribution of the taken action",
                          got_minus_eps=(got - eps).tolist(), want=want.tolist(), rel_err=err, **det)
             elif "greedy=target" in lab:
                 ctx.label("greedy-by-target-accepted")
         else:
-            errs = [(abs(float(loss) - float(want.mean())) / max(1.0, abs(float(want.mean()))), lab, want) for lab, want in cands]
+            errs = [(max(0.0, abs(float(loss) - float(want.mean())) - unit * float(slack.mean())) / max(1.0, abs(float(want.mean()))), lab, want)
+                    for lab, want, slack in cands]
             err, lab, want = next((e for e in errs if e[0] <= 1e-4), errs[0])
             if err > 1e-4:
-                ctx.fail(f"C18/loss/{mode}/not_the_mean_cross_entropy_of_the_projection", "the loss learn() trains on (per=False) differs from "
+                ctx.fail(f"C18/loss/{steps}/not_the_mean_cross_entropy_of_the_projection", "the loss learn() trains on (per=False) differs from "
                          "the mean cross-entropy between the canonical projection and the online log-distribution of the taken action",
                          got=float(loss), want=float(want.mean()), rel_err=err, **det)
         if "done" in feats and ({"clipped-low", "clipped-high", "on-atom"} & feats) and differs:
@@ -553,10 +566,10 @@ PROPERTY = Property(
     obligations=[
         Obligation("projection_conserves", run_projection, strategy=case_strategy("projection"),
                    examples={"quick": 150, "thorough": 1500}, shards={"quick": 5, "thorough": 16},
-                   shrink_budget={"quick": 80, "thorough": 400}),
+                   shrink_budget={"quick": 40, "thorough": 300}),
         Obligation("priorities_cross_entropy", run_priorities, strategy=case_strategy("priorities"),
                    examples={"quick": 150, "thorough": 1500}, shards={"quick": 5, "thorough": 16},
-                   shrink_budget={"quick": 80, "thorough": 400}),
+                   shrink_budget={"quick": 40, "thorough": 300}),
     ],
     assumptions=["batches have exactly agent.batch_size rows, reward/done (B,1), built through Transition + ReplayBuffer; n-step batch shares obs/action",
                  "source distribution = actor_target(next_obs, q=False) (clamped softmax, mass >= 1) at the greedy next action; greedy by the "
@@ -564,6 +577,7 @@ PROPERTY = Property(
                  "online distribution = actor(obs, q=False, log=True) or log of the clamped q=False output, both accepted",
                  "_dqn_loss(states, actions, rewards, next_states, dones, gamma) is internal: absent/changed => labels only, (b) decides",
                  "per=True scalar loss is not compared (weights are (B,1): broadcasting against (B,) is outside the statement)",
-                 "tolerances: conservation 1e-5 relative to max(1,|v_min|,|v_max|) x mass; cross-entropy 1e-4 relative"],
+                 "tolerances: conservation 1e-5 relative to max(1,|v_min|,|v_max|) x mass, cross-entropy 1e-4 relative, each plus a few units of the "
+                 "float32 index error eps32 (N-1) max(1, max|v| / (v_max - v_min)) (see index_error_unit)"],
     wanted_labels=["on-atom", "clipped-low", "clipped-high", "done", "done-on-atom", "n-step", "1-step", "combined", "per=True", "per=False"],
 )
